@@ -11,7 +11,8 @@
    kinds
      "prog"   C18: a program of calls on one field of one line at one level; each
               event carries the observed result class, the "# INVALID" mark of
-              str(line) and whether the stored object is still the previous one.
+              str(line) and whether the stored object is still the previous one
+              (kept: "T" / "F" / "?" when the very same object was assigned again).
               The set of spec states consistent with the observations is tracked
               through Fields!Step; the first call no allowed outcome matches names
               the clause.
@@ -40,7 +41,7 @@ ProgInit(c) == Init0(c.lvl, FALSE, [n \in {c.f} |-> Field(c.dt, "valid", 1)])
 Matching(s, op, e) ==
   {o \in Step(s, op) : /\ o.res = e.res
                        /\ (op.k = "str" => o.mark = e.mark)
-                       /\ (op.k = "set" => o.chg = ~e.kept)}
+                       /\ (op.k = "set" => (e.kept = "?" \/ o.chg = (e.kept = "F")))}
 \* the clause violated when no allowed outcome matches (s: a state consistent so far)
 ProgClause(s, op) ==
   LET L == s.o
